@@ -387,6 +387,15 @@ def run(chk):
         vlib.log("[partial] C11_PARTS=%s: %d runs, %d lines, %d rejected; replay %s; echo %s" % (
             ",".join(parts), stats["runs"], stats["lines"], stats["rejected_runs"], replay_stats, echo_stats))
         return chk.finish()
+    # a run that already produced violations (rejected events, hangs the model does not allow) reports them: the coverage demands
+    # below are about vacuity of a PASS and would otherwise mask the finding behind a machinery error (the replay driver stops
+    # early after three confirmed hangs)
+    if chk.violations:
+        chk.cov["traces_validated_against_impl"] = stats["runs"] + echo_stats["behaviours"]
+        chk.cov["evaluations"] = stats["lines"] + echo_stats["behaviours"]
+        chk.cov["distinct_nontrivial"] = stats["lines"] + echo_stats["behaviours"]
+        chk.cov["rule"] = "run ended with violations; coverage accounting incomplete"
+        return chk.finish()
     # ---- verdicts of the model-checking part
     for c in mcs:
         r = res["mc:" + c]
